@@ -399,7 +399,7 @@ func journalEffects(w *World, fn *ssa.Function) (bad []string, summary string) {
 	}
 	// pc untouched: no use of the pc parameter at all
 	for _, p := range fn.Params {
-		if p.Name() == "pc" && p.Referrers() != nil {
+		if pt, isPtr := p.Type().(*types.Pointer); isPtr && types.Identical(pt.Elem(), types.Typ[types.Uint64]) && p.Referrers() != nil {
 			for _, u := range *p.Referrers() {
 				if _, dbg := u.(*ssa.DebugRef); !dbg {
 					bad = append(bad, "uses the program counter at "+w.pos(u.Pos()))
@@ -516,7 +516,7 @@ func checkC10(w *World, tier string) *Report {
 	want := map[string]bool{"(*Contract).Address": true, "(*Contract).AsDelegate": true, "NewContract": true, "(*EVM).DelegateCall": true, "(*EVM).CallCode": true,
 		"opDelegateCall": true, "opCallCode": true, "(*Contract).Caller": true, "(*Contract).SetCallCode": true, "(*Contract).SetCodeOptionalHash": true}
 	s.cloneRule(r, "R10.4", pkVM, func(name string, pr *PairResult) bool { return want[name] })
-	r.need("R10.4", 9)
+	r.need("R10.4", 7)
 	r.Assumptions = append(r.Assumptions, "the call-tree cursor is the innermost open CALL/CREATE frame: C07 R7.1-R7.3")
 	return r
 }
@@ -645,12 +645,7 @@ func addR103(w *World, r *Report, rule string) {
 			r.undecided(rule, key, "-", "function not found")
 			continue
 		}
-		var par *ssa.Parameter
-		for _, p := range fn.Params {
-			if p.Name() == h.param {
-				par = p
-			}
-		}
+		par := uniqueUint64Param(fn)
 		n, ok := 0, par != nil
 		for _, b := range fn.Blocks {
 			for _, ins := range b.Instrs {
@@ -682,11 +677,11 @@ func addR103(w *World, r *Report, rule string) {
 				switch x := ins.(type) {
 				case *ssa.MapUpdate:
 					n++
-					if p, isP := x.Key.(*ssa.Parameter); !isP || p.Name() != "callIdx" {
+					if p, isP := x.Key.(*ssa.Parameter); !isP || p != uniqueUint64Param(fn) {
 						ok = false
 					}
 				case *ssa.Lookup:
-					if p, isP := x.Index.(*ssa.Parameter); !isP || p.Name() != "callIdx" {
+					if p, isP := x.Index.(*ssa.Parameter); !isP || p != uniqueUint64Param(fn) {
 						ok = false
 					}
 				}
@@ -699,4 +694,19 @@ func addR103(w *World, r *Report, rule string) {
 		}
 	}
 	r.need(rule, 5)
+}
+
+
+// uniqueUint64Param: the only parameter of type uint64 (the call index), nil if there is not exactly one.
+func uniqueUint64Param(fn *ssa.Function) *ssa.Parameter {
+	var out *ssa.Parameter
+	for _, p := range fn.Params {
+		if types.Identical(p.Type(), types.Typ[types.Uint64]) {
+			if out != nil {
+				return nil
+			}
+			out = p
+		}
+	}
+	return out
 }
